@@ -226,8 +226,10 @@ def obligations(tier: str) -> List[dict]:
         for m in ('amr', 'custom'):
             add('h_tree', 'tree', 300, ['reified'], model=m, n=1, small=False)
             for op in (0, 1):
-                add('h_tree', 'tree', 400, ['underscore-variable']
-                    if op else [], model=m, n=2, small=False, i0_op=op)
+                for r0 in range(5):
+                    add('h_tree', 'tree', 400, ['underscore-variable']
+                        if (op and r0 == 0) else [], model=m, n=2,
+                        small=False, i0_op=op, i0_r=r0)
         add('h_tree', 'tree', 300, model='default', n=2, small=True)
         for ops in [(0, 0), (0, 1), (1, 0), (1, 1), (1, 2)]:
             add('h_tree', 'tree', 400, model='amr', n=3, small=True,
